@@ -32,9 +32,24 @@ def core():
         Var('Str', [R(r'"([^"\\]|\\.)*"')]), Var('Id', [R('[a-z]+')])], tags=('loop',)))
     # --- end-of-input look-ahead
     D.append(Def('eoi_dollar', variants=[
-        Var('AEnd', [R('a$', prio=3)]), Var('A', [T('a')]), Var('B', [R('b+')])], tags=('look',)))
+        Var('AEnd', [R('a$', prio=3)]), Var('A', [T('a')]), Var('B', [R('b+')])], tags=('look', 'quick')))
     D.append(Def('word_boundary', utf8=False, variants=[
-        Var('If', [R(rb'if\b')]), Var('Id', [R(rb'[a-z]+', prio=1)]), Var('Sp', [T(b' ')])], tags=('look',)))
+        Var('If', [R(rb'if\b')]), Var('Id', [R(rb'[a-z]+', prio=1)]), Var('Sp', [T(b' ')])], tags=('look', 'quick', 'loop')))
+    D.append(Def('look_str', skips=[R(' +')], variants=[
+        Var('Let', [R(r'let(?-u:\b)')]), Var('Id', [R('[a-z]+')]), Var('End', [R(r'[0-9]+$', prio=5)]), Var('Num', [R('[0-9]+')])],
+        tags=('look', 'loop')))
+    # --- negated classes folded into "range with exceptions" (non-looping, few edges), byte and str mode
+    D.append(Def('neg_bytes', utf8=False, variants=[
+        Var('Char', [R(b"'[^']'")]), Var('Quote', [T(b"'")]), Var('Esc', [R(rb'\\[^\n]')]), Var('Bs', [T(b'\\')]),
+        Var('Two', [R(b'x[^ab]')])], tags=('bytes', 'quick', 'neg')))
+    D.append(Def('neg_str', variants=[
+        Var('Char', [R("'[^']'")]), Var('Quote', [T("'")]), Var('Esc', [R(r'\\.')]), Var('Bs', [T('\\')]),
+        Var('NoC', [R('x[^c]')])], tags=('unicode', 'quick', 'neg')))
+    D.append(Def('neg_loop_bytes', utf8=False, variants=[
+        Var('Line', [R(rb'#[^\n]*', allow_greedy=True)]), Var('Nl', [T(b'\n')]), Var('Any', [R(b'(?s).', prio=0)])], tags=('bytes', 'loop', 'neg')))
+    # --- minimal looping definitions for long inputs (several 8-byte batches, > 64 bytes)
+    D.append(Def('long_loop', utf8=False, skips=[T(b' ')], variants=[Var('W', [R(b'[a-z]+')]), Var('D', [T(b'.')])],
+                 tags=('bytes', 'long')))
     # --- lazy quantifier: same language as greedy
     D.append(Def('lazy', variants=[
         Var('Q', [R(r'<.*?>', allow_greedy=None)]), Var('L', [R('[a-z]+')])], tags=('loop',)))
@@ -256,6 +271,10 @@ def literal_family(seed=0, thorough=False):
     D.append(Def('ic_regex', skips=[R(' +', ignore_case=True)], variants=[
         Var('A', [R('[a-c]+x', ignore_case=True)]), Var('B', [R('é|ü', ignore_case=True)]),
         Var('C', [R('(?-i:q)r', ignore_case=True)]), Var('N', [R('[0-9]+', ignore_case=True)])], tags=('lit', 'ic', 'unicode')))
+    D.append(Def('ic_skip', skips=[R('x+', ignore_case=True), T('ws', ignore_case=True)], variants=[
+        Var('A', [R('[a-c]+')]), Var('B', [T('B')])], tags=('lit', 'ic', 'quick')))
+    D.append(Def('ic_ascii_fold', variants=[Var('K', [T('kelvin', ignore_case=True)]), Var('S', [T('ss', ignore_case=True)]),
+                                            Var('W', [R('[a-j]+')])], tags=('lit', 'ic', 'unicode')))
     D.append(Def('ic_bytes_regex', utf8=False, variants=[
         Var('A', [R(b'(c|\xC3\xBB)+', ignore_case=True)]), Var('B', [R(b'a', ignore_case=True)]), Var('K', [R('k', ignore_case=True)])],
         tags=('lit', 'ic', 'bytes')))
@@ -287,6 +306,11 @@ def subpattern_family():
         Var('A', [R(b'a(?&raw)')]), Var('U', [R('(?&u)+')]), Var('R', [R(b'(?&raw)(?&raw)')])], tags=('subpat', 'bytes')))
     D.append(Def('sub_skip', subs=[('ws', '[ \\t]')], skips=[R('(?&ws)+')], variants=[Var('A', [R('a(?&ws)?b')]),
                                                                                      Var('W', [R('[a-z]')])], tags=('subpat',)))
+    D.append(Def('sub_unicode', subs=[('g', r'[α-ω]+'), ('any', '.'), ('nq', "[^q]")], variants=[
+        Var('W', [R('(?&g)')]), Var('A', [R('<(?&any)>')]), Var('N', [R('!(?&nq)')])], tags=('subpat', 'unicode', 'quick')))
+    D.append(Def('sub_mixed_mode', utf8=False, subs=[('g', r'[α-ω]'), ('any', '.'), ('raw', b'[\x80-\xFF]')], variants=[
+        Var('A', [R(b'x(?&g)+')]), Var('B', [R(b'<(?&any)>')]), Var('C', [R('(?-u)\\xFE(?&any)')]), Var('R', [R(b'r(?&raw)')])],
+        tags=('subpat', 'bytes', 'quick')))
     D.append(Def('rej_sub_undef2', subs=[('a', 'x')], variants=[Var('A', [R('(?&a)(?&b)')])], expect='reject', tags=('subpat',)))
     D.append(Def('rej_sub_forward', subs=[('a', '(?&b)x'), ('b', 'y')], variants=[Var('A', [R('(?&a)')])], expect='reject',
                  tags=('subpat',)))
